@@ -103,22 +103,25 @@ func genBytes(r *rand.Rand) []byte {
 
 var stringPool = []string{
 	"", "", "a", "token", "transfer", "Z9", "\x00", "a\x00b",
-	"\u00e9",             // e-acute precomposed (NFC)
-	"e\u0301",            // e + combining acute (NFD)
-	"\u1100\u1161",       // Hangul jamo L+V, composes to U+AC00
-	"\uac00",             // Hangul syllable
-	"\u212b",             // ANGSTROM SIGN: singleton, NFC is U+00C5
-	"\u00c5",             // A with ring
-	"A\u030a",            // A + combining ring above
-	"q\u0307\u0323",      // two combining marks in non-canonical order
-	"q\u0323\u0307",      // canonical order
-	"\ufb01",             // ligature fi: unchanged by NFC
-	"\u0958",             // composition exclusion: NFC is the decomposed form
-	"\u0915\u093c",       // its decomposition
-	"\U0001f600",         // non-BMP
-	"\u00df\u4e2d\u6587", // sharp s + CJK
-	"\u0301",             // lone combining mark
-	"\u1e9b\u0323",       // long s with dot above + dot below
+	"\u00e9",                 // e-acute precomposed (NFC)
+	"e\u0301",                // e + combining acute (NFD)
+	"\u1100\u1161",           // Hangul jamo L+V, composes to U+AC00
+	"\uac00",                 // Hangul syllable
+	"\u212b",                 // ANGSTROM SIGN: singleton, NFC is U+00C5
+	"\u00c5",                 // A with ring
+	"A\u030a",                // A + combining ring above
+	"q\u0307\u0323",          // two combining marks in non-canonical order
+	"q\u0323\u0307",          // canonical order
+	"\ufb01",                 // ligature fi: unchanged by NFC
+	"\u0958",                 // composition exclusion: NFC is the decomposed form
+	"\u0915\u093c",           // its decomposition
+	"\U0001f600",             // non-BMP
+	"\u00df\u4e2d\u6587",     // sharp s + CJK
+	"\u0301",                 // lone combining mark
+	"\u1e9b\u0323",           // long s with dot above + dot below
+	"\U00010041\u0300",       // LINEAR B SYLLABLE B038 + combining grave: no composition exists for it
+	"\U001000dc\u0328\u0300", // private-use character + ogonek + grave: already NFC
+	"z\U0001d15e",            // MUSICAL SYMBOL HALF NOTE: composition exclusion, NFC is decomposed (non-BMP decomposition)
 	strings.Repeat("x", 127), strings.Repeat("y", 128), strings.Repeat("e\u0301", 100),
 }
 
@@ -369,8 +372,8 @@ func eqVal(a, b reflect.Value, path string) string {
 			return path
 		}
 	case reflect.String:
-		if norm.NFC.String(a.String()) != norm.NFC.String(b.String()) {
-			return path
+		if !canonEq(a.String(), b.String()) {
+			return path + "(string)"
 		}
 	case reflect.Ptr:
 		// absent nested object == empty nested object
@@ -408,6 +411,55 @@ func eqVal(a, b reflect.Value, path string) string {
 		return path + "(unsupported kind)"
 	}
 	return ""
+}
+
+// canonEq decides canonical equivalence of two strings - which is what "equal when compared in
+// NFC form" means - through their NFD forms, so that the verdict does not depend on the
+// composition step of the normaliser that the code under test uses.
+func canonEq(a, b string) bool { return a == b || norm.NFD.String(a) == norm.NFD.String(b) }
+
+// nfcSuspect reports that the normaliser's NFC of s is not canonically equivalent to s, or is
+// not itself accepted as normalised: the value cannot survive WriteString/readString.
+func nfcSuspect(s string) bool {
+	n := norm.NFC.String(s)
+	return !canonEq(n, s) || !norm.NFC.IsNormalString(n)
+}
+
+// suspectString returns a string inside the value for which nfcSuspect holds ("" if none).
+func suspectString(x interface{}) string {
+	var found string
+	var walk func(v reflect.Value, depth int)
+	walk = func(v reflect.Value, depth int) {
+		if found != "" || depth > 8 {
+			return
+		}
+		switch v.Kind() {
+		case reflect.String:
+			if nfcSuspect(v.String()) {
+				found = v.String()
+			}
+		case reflect.Ptr:
+			if !v.IsNil() {
+				walk(v.Elem(), depth+1)
+			}
+		case reflect.Struct:
+			t := v.Type()
+			for i := 0; i < t.NumField(); i++ {
+				if tagged(t, i) {
+					walk(acc(v.Field(i)), depth+1)
+				}
+			}
+		case reflect.Slice:
+			if v.Type().Elem().Kind() == reflect.Uint8 {
+				return
+			}
+			for i := 0; i < v.Len(); i++ {
+				walk(v.Index(i), depth+1)
+			}
+		}
+	}
+	walk(reflect.ValueOf(x), 0)
+	return found
 }
 
 // shape is a coarse canonical description of a value (non-triviality key).
